@@ -18,6 +18,7 @@ from collections import deque
 from dataclasses import dataclass, field
 from typing import Callable, Iterable
 
+from .inline import InlineBlock, InlineReturn
 from .loader import Func, Program, walk_expr
 
 
@@ -83,6 +84,12 @@ class _Try:
 class _Fin:
     node: ast.AST  # Try (finalbody) or With/AsyncWith
     copies: dict
+
+
+@dataclass
+class _Inl:
+    node: ast.AST  # inline.InlineBlock: the body of an inlined helper
+    outs: list  # dangling edges of its InlineReturn statements
 
 
 class CFG:
@@ -237,6 +244,25 @@ class CFG:
             self._connect(dangling, self.exit.id)
         return []
 
+    def _jump_inline(self, dangling, block) -> None:
+        """Route the `return` of an inlined helper to the end of its block, through the finally/with frames in between."""
+        i = len(self._frames) - 1
+        while i >= 0:
+            fr = self._frames[i]
+            if isinstance(fr, _Inl) and fr.node is block:
+                fr.outs.extend(dangling)
+                return
+            if isinstance(fr, _Fin):
+                key = ("inlret", id(block))
+                if key in fr.copies:
+                    self._connect(dangling, fr.copies[key][0])
+                    return
+                _entry, out = self._fin_copy(fr, i, key, dangling)
+                dangling = out
+            i -= 1
+        # the block was not found (cannot happen): treat as fall-through to the function exit
+        self._connect(dangling, self.exit.id)
+
     def _innermost_loop(self, upto: int):
         for j in range(upto, -1, -1):
             if isinstance(self._frames[j], _Loop):
@@ -281,6 +307,19 @@ class CFG:
         if isinstance(st, (ast.FunctionDef, ast.AsyncFunctionDef, ast.ClassDef)):
             n = self._mk("funcdef", st, [], dangling)
             return [(n.id, "n", None)]
+        if isinstance(st, InlineBlock):
+            # the body of an inlined helper: no test node; its `return`s (InlineReturn) jump to the end of the block
+            fr = _Inl(st, [])
+            self._frames.append(fr)
+            self._ctx.append(("inline", st, "body"))
+            out = self._block(st.body, dangling)
+            self._ctx.pop()
+            self._frames.pop()
+            return out + fr.outs
+        if isinstance(st, InlineReturn):
+            n = self._mk("stmt", st, [st], dangling)
+            self._jump_inline([(n.id, "n", None)], st.block)
+            return []
         if isinstance(st, ast.If):
             t, f = self._cond(st.test, dangling)
             self._ctx.append(("if", st, "body"))
